@@ -31,6 +31,26 @@ entity Group;
 entity Doc { owner: User, tags: Set<String> };
 action view, edit appliesTo { principal: [User], resource: [Doc], context: { ip: ipaddr, flag?: Bool } };
 `), Policies: []byte(`permit (principal is User, action == Action::"view", resource is Doc) when { resource.owner == principal };`)},
+	// declarations deliberately out of lexicographic order: parent lists, action parents,
+	// principal/resource lists, attributes, enum members, namespaces
+	{Name: "builtin-3-unsorted", Cedar: []byte(`namespace Zeta {
+  type Ctx = { zone: String, ip: ipaddr, flags: Set<String>, "na me"?: Long };
+  entity Team in [Org];
+  entity Org;
+  entity Admins;
+  entity User in [Team, Org, Admins] { name: String, manager?: User, age: Long } tags String;
+  entity Doc in [Team, Admins] { owner: User, labels: Set<String> };
+  entity Color enum ["red", "blue", "green"];
+  action "write" appliesTo { principal: [User, Team], resource: [Doc, Org], context: Ctx };
+  action "admin" appliesTo { principal: User, resource: Doc, context: {} };
+  action "read" in ["write", "admin"] appliesTo { principal: [User, Admins, Team], resource: [Org, Doc], context: Ctx };
+}
+namespace Alpha {
+  entity Thing in [Zeta::Team, Zeta::Org, Zeta::Admins] { z: Long, a: String, m: Bool };
+  action "use" appliesTo { principal: [Zeta::User], resource: [Thing], context: { b: Long, a: Long } };
+}
+entity Root in [Zeta::Org, Alpha::Thing];
+`), Entities: []byte(`[{"uid":{"type":"Zeta::User","id":"u"},"parents":[{"type":"Zeta::Team","id":"t"},{"type":"Zeta::Org","id":"o"},{"type":"Zeta::Admins","id":"a"}],"attrs":{"name":"n","age":3},"tags":{"k":"v","a":"b"}},{"uid":{"type":"Zeta::Team","id":"t"},"parents":[{"type":"Zeta::Org","id":"o"}],"attrs":{},"tags":{}},{"uid":{"type":"Zeta::Org","id":"o"},"parents":[],"attrs":{},"tags":{}},{"uid":{"type":"Zeta::Admins","id":"a"},"parents":[],"attrs":{},"tags":{}}]`)},
 	{Name: "builtin-2", Cedar: []byte(`namespace NS { type T = { a: Long, b: String }; entity E { t: T }; action a appliesTo { principal: E, resource: E }; }
 entity Z enum ["x", "y"];
 `)},
@@ -76,6 +96,9 @@ func Pick(t *verifsim.Tape) *Schema {
 	a := All()
 	if len(a) == 0 {
 		return nil
+	}
+	if t.Intn(6) == 5 {
+		return builtin[t.Intn(len(builtin))]
 	}
 	return a[t.Intn(len(a))]
 }
